@@ -78,6 +78,12 @@ static std::string run(const Args& a) {
         const Matrix dsm = (STR(6)=="1") ? DipSourceMat(geo,dipoles,E(STR(5)))
                                           : DipSourceMat(geo,dipoles,Integrator(3,0,0.001),E(STR(5)));
         dsm.save(ARG(4));
+    } else if (op=="DSMDIFF") {        // geom cond dip : max relative difference between the adaptive and the non-adaptive source matrix
+        const Geometry geo(ARG(1),ARG(2),false);
+        const Matrix dipoles(ARG(3));
+        const Matrix A = DipSourceMat(geo,dipoles,"");
+        const Matrix N = DipSourceMat(geo,dipoles,Integrator(3,0,0.001),"");
+        char b[64]; snprintf(b,sizeof b,"%.3e",maxreldiff(A,N)); out << " " << b;
     } else if (op=="EITSM") {          // geom cond electrodes out old
         const Geometry geo(ARG(1),ARG(2),STR(5)=="1");
         const Sensors electrodes(ARG(3),geo);
